@@ -10,6 +10,7 @@ import (
 	"io"
 	"math/rand"
 	"os"
+	"path"
 	"path/filepath"
 	"strings"
 	"time"
@@ -239,6 +240,138 @@ func alterArchiveHash(entry string) func(m map[string]interface{}) {
 	}
 }
 
+// importClasses is the round-robin of stream classes (a class listed twice gets
+// two slots per round). The import phase sends a whole number of rounds.
+var importClasses = []string{
+	"valid", "valid", "valid-dupcheck", "valid-no-content",
+	"dotdot-slash", "dotdot-slash", "dotdot-slash", "dotdot-slash", "dotdot-victim", "dotdot-victim",
+	"trailing-dotdot", "trailing-dotdot", "absolute", "absolute", "no-underscore",
+	"duplicate", "directory", "link-member", "link-member", "special-member", "huge-size", "truncated", "truncated",
+	"altered-meta", "altered-meta", "missing-export", "long-name", "long-name", "garbage", "bad-checksum",
+	"hostile-after-valid", "ctx-cancel", "dots-benign", "nested",
+	// composed names: the set-id separator in a nested component, parent
+	// elements behind it balanced (or not) by the components in front of it
+	"nested-id-balanced", "nested-id-balanced", "nested-id-deep-prefix", "nested-id-shallow-prefix", "nested-id-inside",
+	"prefix-dotdot", "dot-slash-filler", "sibling-prefix", "composed", "composed",
+}
+
+// ---- composed member names -------------------------------------------------------
+
+// nameSpec describes a member name
+//
+//	<prefix elements>/<n>_<r0>/<mid elements>/<DD times "..">/<tail>
+//
+// joined with single slashes; "." and "" (= doubled slash) filler elements are
+// sprinkled between the elements when Fill says so. Only the text behind the
+// first '_' is what Import joins under the snapshots directory, so the
+// elements in front of the set-id component change how the whole name looks
+// (to path.Clean, to a depth counter) without changing where it points.
+type nameSpec struct {
+	Abs    bool     // leading slash
+	Prefix []string // elements before the set-id component
+	IDComp string   // "<n>_<r0>"
+	Mid    []string // elements between the set-id component and the parent elements
+	DD     int      // number of ".." elements
+	Fill   int      // 0 none, 1 "." elements, 2 empty elements, 3 both
+	Tail   string   // what follows the parent elements
+}
+
+func (ns nameSpec) build(r *rand.Rand) string {
+	var el []string
+	add := func(e string) {
+		el = append(el, e)
+		for ns.Fill != 0 && r.Intn(3) == 0 {
+			switch {
+			case ns.Fill == 1, ns.Fill == 3 && r.Intn(2) == 0:
+				el = append(el, ".")
+			default:
+				el = append(el, "")
+			}
+		}
+	}
+	for _, e := range ns.Prefix {
+		add(e)
+	}
+	add(ns.IDComp)
+	for _, e := range ns.Mid {
+		add(e)
+	}
+	for i := 0; i < ns.DD; i++ {
+		add("..")
+	}
+	if ns.Tail != "" {
+		el = append(el, ns.Tail)
+	}
+	s := strings.Join(el, "/")
+	if ns.Abs {
+		s = "/" + s
+	}
+	return s
+}
+
+// nameFacts labels a generated member name for the evidence counters (the
+// verdict never depends on them: it is the listing of the sandbox).
+type nameFacts struct {
+	Nested       bool   // the first '_' is not in the first path component
+	PrefixDotDot bool   // a ".." element in front of the first '_'
+	Filler       bool   // "." or empty elements
+	DotDots      int    // ".." elements in the whole name
+	CleanLocal   bool   // path.Clean(name) is relative and does not start with ".."
+	RemEscapes   bool   // <snapshots>/<id>_<text behind the first '_'> is lexically outside the snapshots dir
+	Predicted    string // that lexical target
+}
+
+func factsOf(name, snapDir string) nameFacts {
+	var f nameFacts
+	cl := path.Clean(name)
+	f.CleanLocal = name != "" && !path.IsAbs(cl) && cl != ".." && !strings.HasPrefix(cl, "../")
+	for _, e := range strings.Split(name, "/") {
+		if e == ".." {
+			f.DotDots++
+		}
+	}
+	if strings.Contains(name, "/./") || strings.Contains(name, "//") || strings.HasPrefix(name, "./") {
+		f.Filler = true
+	}
+	i := strings.Index(name, "_")
+	if i < 0 {
+		return f
+	}
+	f.Nested = strings.Contains(name[:i], "/")
+	for _, e := range strings.Split(name[:i], "/") {
+		if e == ".." {
+			f.PrefixDotDot = true
+		}
+	}
+	f.Predicted = path.Join(snapDir, "0_"+name[i+1:])
+	f.RemEscapes = !strings.HasPrefix(f.Predicted, snapDir+"/")
+	return f
+}
+
+var plainElems = []string{"a", "b", "c", "dir", "x.y", "snap", "0", "-", "..x", "y..", "1"}
+
+func plainPath(r *rand.Rand, n int) []string {
+	out := make([]string, n)
+	for i := range out {
+		out[i] = plainElems[r.Intn(len(plainElems))]
+	}
+	return out
+}
+
+func idComp(r *rand.Rand) string {
+	return fmt.Sprintf("%d_%s", 1+r.Intn(99), []string{"", "x", "x.zip", "s", "."}[r.Intn(5)])
+}
+
+// splitUp splits a relative path into the number of leading ".." elements and the rest.
+func splitUp(rel string) (int, string) {
+	n := 0
+	for rel == ".." || strings.HasPrefix(rel, "../") {
+		n++
+		rel = strings.TrimPrefix(strings.TrimPrefix(rel, ".."), "/")
+	}
+	return n, rel
+}
+
 // ---- stream classes ------------------------------------------------------------
 
 type stream struct {
@@ -309,16 +442,42 @@ func (sc *scenario) genStream(r *rand.Rand, idx int) stream {
 		return []byte(fmt.Sprintf("C32-HOSTILE-PAYLOAD-%d\n", idx)), "garbage"
 	}
 
-	classes := []string{
-		"valid", "valid", "valid-dupcheck", "valid-no-content",
-		"dotdot-slash", "dotdot-slash", "dotdot-slash", "dotdot-slash", "dotdot-victim", "dotdot-victim",
-		"trailing-dotdot", "trailing-dotdot", "absolute", "absolute", "no-underscore",
-		"duplicate", "directory", "link-member", "link-member", "special-member", "huge-size", "truncated", "truncated",
-		"altered-meta", "altered-meta", "missing-export", "long-name", "long-name", "garbage", "bad-checksum",
-		"hostile-after-valid", "ctx-cancel", "dots-benign", "nested",
+	// aim chooses what an escaping name points at: e = levels above the
+	// snapshots directory, tail = the path from there. Existing files (the
+	// sentinels at every sandbox level, decoys, user files, snap data), new
+	// files in existing directories at every level up to the sandbox top, and
+	// new siblings of the snapshots directory that share its name as a prefix.
+	maxUp, _ := splitUp(relTo(snapDir, sc.top))
+	aim := func(minE int) (int, string, string) {
+		for {
+			switch k := r.Intn(7); {
+			case k < 3:
+				e, rest := splitUp(relTo(snapDir, sc.victims[r.Intn(len(sc.victims))]))
+				if e >= minE && rest != "" && len(rest) < 150 {
+					return e, rest, "existing"
+				}
+			case k < 6:
+				e := minE + r.Intn(maxUp-minE+1)
+				return e, []string{"c32-esc-new.zip", "c32-esc-new", "9_c32-esc_1.0_1.zip"}[r.Intn(3)], "new"
+			default:
+				if minE <= 1 {
+					return 1, filepath.Base(snapDir) + []string{"-esc.zip", ".bak", "9"}[r.Intn(3)], "sibling"
+				}
+			}
+		}
 	}
+	classes := importClasses
 	class := classes[idx%len(classes)]
 	st := stream{Class: class, NoDup: true}
+	// hostile sends one member under the given name: alone, before or after a
+	// valid member, carrying the valid snapshot or garbage
+	hostile := func(name string) {
+		data, pl := payload()
+		pos := r.Intn(3)
+		st.Name = name
+		st.Variant += fmt.Sprintf(" %s %s", pl, posName[pos])
+		st.Bytes = asm(r.Intn(4) != 0, place(reg(name, data), pos), true)
+	}
 	switch class {
 	case "valid":
 		n := 1 + r.Intn(3)
@@ -611,6 +770,185 @@ func (sc *scenario) genStream(r *rand.Rand, idx int) stream {
 		st.Name = names[k]
 		st.Variant = fmt.Sprintf("name=%d %s", k, pl)
 		st.Bytes = asm(true, []member{reg(names[k], data)}, true)
+
+	case "nested-id-balanced", "nested-id-deep-prefix", "nested-id-shallow-prefix":
+		// <k plain components>/<n>_<r0>/<jr plain>/<1+jr+e times ..>/<tail>: the
+		// text behind the '_' points e levels above the snapshots directory;
+		// the whole name, cleaned, is local when k >= e
+		minE := 1
+		if class == "nested-id-shallow-prefix" {
+			minE = 2
+		}
+		e, tail, tl := aim(minE)
+		var k int
+		switch class {
+		case "nested-id-balanced":
+			k = e
+		case "nested-id-deep-prefix":
+			k = e + 1 + r.Intn(3)
+		default:
+			k = 1 + r.Intn(e-1)
+		}
+		jr := r.Intn(3)
+		ns := nameSpec{Prefix: plainPath(r, k), IDComp: idComp(r), Mid: plainPath(r, jr), DD: 1 + jr + e, Fill: []int{0, 0, 0, 1, 2, 3}[r.Intn(6)], Tail: tail}
+		st.Variant = fmt.Sprintf("k=%d e=%d jr=%d fill=%d aim=%s", k, e, jr, ns.Fill, tl)
+		hostile(ns.build(r))
+	case "nested-id-inside":
+		// parent elements behind a nested set-id component that stay inside the
+		// snapshots directory (incl. names that land on a file of another set)
+		k := 1 + r.Intn(4)
+		jr := r.Intn(3)
+		tmpl := r.Intn(3)
+		ns := nameSpec{Prefix: plainPath(r, k), IDComp: idComp(r), Mid: plainPath(r, jr), Fill: []int{0, 0, 1, 2, 3}[r.Intn(5)]}
+		switch tmpl {
+		case 0: // back to <snapshots>/<id>_<r0>/
+			ns.DD, ns.Tail = jr, "in.zip"
+		case 1: // back to the snapshots directory itself: the existing snapshot of another set
+			ns.DD, ns.Tail = jr+1, filepath.Base(sc.zipPath)
+		default: // back to the snapshots directory itself: a new file of another set
+			ns.DD, ns.Tail = jr+1, "77_other_1.0_1.zip"
+		}
+		st.Variant = fmt.Sprintf("tmpl=%d k=%d jr=%d fill=%d", tmpl, k, jr, ns.Fill)
+		hostile(ns.build(r))
+	case "prefix-dotdot":
+		// ".." elements in front of the set-id component
+		tmpl := r.Intn(6)
+		g := 1 + r.Intn(3)
+		up := func(n int) []string {
+			out := make([]string, n)
+			for i := range out {
+				out[i] = ".."
+			}
+			return out
+		}
+		var ns nameSpec
+		tl := "-"
+		switch tmpl {
+		case 0: // a/b/../../1_x.zip: cleans to a local name, points inside
+			ns = nameSpec{Prefix: append(plainPath(r, g), up(g)...), IDComp: idComp(r), Tail: "in.zip"}
+			if r.Intn(2) == 0 {
+				ns.IDComp, ns.Tail = "1_x.zip", ""
+			}
+		case 1: // k+g plain, g parents (depth k left), then an escape balanced by those k
+			e, tail, l := aim(1)
+			tl = l
+			ns = nameSpec{Prefix: append(plainPath(r, e+g), up(g)...), IDComp: idComp(r), DD: 1 + e, Tail: tail}
+		case 2: // starts with parent elements, escape behind the '_'
+			e, tail, l := aim(1)
+			tl = l
+			ns = nameSpec{Prefix: append(up(g), plainPath(r, r.Intn(e+2))...), IDComp: idComp(r), DD: 1 + e, Tail: tail}
+		case 3: // the whole name leaves its root, the text behind the '_' is harmless
+			ns = nameSpec{Prefix: append(plainPath(r, g), up(g+1+r.Intn(2))...), IDComp: idComp(r), Tail: "in.zip"}
+		case 4: // parents in the prefix AND behind the '_', together balanced: a/../b/c/1_/../../../tail
+			e, tail, l := aim(1)
+			tl = l
+			pre := append(plainPath(r, 1), "..")
+			pre = append(pre, plainPath(r, e)...)
+			ns = nameSpec{Prefix: pre, IDComp: idComp(r), DD: 1 + e, Tail: tail}
+		default: // look-alikes that are not parent elements
+			ns = nameSpec{Prefix: []string{[]string{"..b", "b..", "...", ". .", "..\\"}[r.Intn(5)]}, IDComp: "1_x.zip"}
+			ns.Prefix = append(plainPath(r, r.Intn(2)), ns.Prefix...)
+			st.Variant = "lookalike "
+		}
+		ns.Fill = []int{0, 0, 1, 2, 3}[r.Intn(5)]
+		st.Variant += fmt.Sprintf("tmpl=%d g=%d fill=%d aim=%s", tmpl, g, ns.Fill, tl)
+		hostile(ns.build(r))
+	case "dot-slash-filler":
+		// "." and empty elements between the set-id component and the parent
+		// elements, at least as many as the levels escaped: <n>_x/././../../tail
+		e, tail, tl := aim(1)
+		k := []int{0, 0, 1, 2}[r.Intn(4)]
+		jr := r.Intn(2)
+		f := e + (idx/len(classes))%3 // as many fillers as levels escaped, one more, two more: each once per three rounds
+		kind := r.Intn(3)
+		mid := plainPath(r, jr)
+		for i := 0; i < f; i++ {
+			switch {
+			case kind == 0, kind == 2 && r.Intn(2) == 0:
+				mid = append(mid, ".")
+			default:
+				mid = append(mid, "")
+			}
+		}
+		pre := plainPath(r, k)
+		if k == 0 && r.Intn(3) == 0 {
+			pre = []string{"."}
+		}
+		ns := nameSpec{Prefix: pre, IDComp: idComp(r), Mid: mid, DD: 1 + jr + e, Tail: tail}
+		st.Variant = fmt.Sprintf("k=%d e=%d jr=%d fillers=%d kind=%d dotfirst=%v aim=%s", k, e, jr, f, kind, len(pre) == 1 && pre[0] == ".", tl)
+		hostile(ns.build(r))
+	case "sibling-prefix":
+		// a new file beside the snapshots directory whose path has the path of
+		// the snapshots directory as a string prefix
+		base := filepath.Base(snapDir)
+		tmpl := r.Intn(4)
+		k := []int{0, 0, 1, 2}[r.Intn(4)]
+		ns := nameSpec{Prefix: plainPath(r, k), IDComp: idComp(r), Fill: []int{0, 0, 1, 2}[r.Intn(4)]}
+		switch tmpl {
+		case 0:
+			ns.DD, ns.Tail = 2, base+"-sibling.zip"
+		case 1:
+			ns.DD, ns.Tail = 2, base+"2"
+		case 2:
+			ns.DD, ns.Tail = 3, filepath.Base(filepath.Dir(snapDir))+"/"+base+".zip"
+		default:
+			ns.DD, ns.Tail = 2, base+"x_1.0_1.zip"
+		}
+		st.Variant = fmt.Sprintf("tmpl=%d k=%d fill=%d", tmpl, k, ns.Fill)
+		hostile(ns.build(r))
+	case "composed":
+		// free composition of all of the above
+		elem := func() string {
+			switch r.Intn(12) {
+			case 0:
+				return "."
+			case 1:
+				return ""
+			case 2:
+				return ".."
+			case 3:
+				return []string{"p_q", "_", "7_"}[r.Intn(3)] // an earlier '_': the split moves forward
+			default:
+				return plainElems[r.Intn(len(plainElems))]
+			}
+		}
+		var ns nameSpec
+		ns.Abs = r.Intn(10) == 0
+		for i, n := 0, r.Intn(7); i < n; i++ {
+			ns.Prefix = append(ns.Prefix, elem())
+		}
+		if len(ns.Prefix) > 0 && ns.Prefix[0] == "" {
+			ns.Prefix[0] = "."
+		}
+		ns.IDComp = idComp(r)
+		for i, n := 0, r.Intn(4); i < n; i++ {
+			ns.Mid = append(ns.Mid, elem())
+		}
+		ns.DD = r.Intn(10)
+		ns.Fill = r.Intn(4)
+		tl := ""
+		switch r.Intn(6) {
+		case 0:
+			ns.Tail, tl = "ok.zip", "plain"
+		case 1:
+			ns.Tail, tl = "..", "trailing-dotdot"
+		case 2:
+			ns.Tail, tl = filepath.Base(snapDir)+"-c", "sibling"
+		default:
+			_, ns.Tail, tl = aim(1)
+		}
+		name := ns.build(r)
+		// keep the lexical target inside the sandbox, where the listing sees it
+		for ns.DD > 0 {
+			if f := factsOf(name, snapDir); f.Predicted == "" || under(f.Predicted, sc.top) {
+				break
+			}
+			ns.DD--
+			name = ns.build(r)
+		}
+		f := factsOf(name, snapDir)
+		st.Variant = fmt.Sprintf("abs=%v pre=%d mid=%d dd=%d fill=%d tail=%s nested=%v predotdot=%v cleanlocal=%v escapes=%v", ns.Abs, len(ns.Prefix), len(ns.Mid), ns.DD, ns.Fill, tl, f.Nested, f.PrefixDotDot, f.CleanLocal, f.RemEscapes)
+		hostile(name)
 	}
 	return st
 }
@@ -708,6 +1046,9 @@ func (sc *scenario) runImports(c *kit.Check, n int, only int) {
 		st := sc.genStream(r, i)
 		sc.nextID++
 		id := sc.nextID
+		if os.Getenv("VERIF_C32_DUMP_NAMES") != "" { // debugging aid
+			fmt.Printf("c32-name case=%d class=%s variant=%q name=%q\n", caseIdx, st.Class, st.Variant, st.Name)
+		}
 		os.WriteFile(filepath.Join(kit.WorkDir("C32"), "inflight.json"), []byte(kit.JSON(map[string]interface{}{"case_index": caseIdx, "op": "import", "class": st.Class, "variant": st.Variant, "name": st.Name})), 0644)
 
 		before, err := listTree(sc.top)
@@ -732,6 +1073,32 @@ func (sc *scenario) runImports(c *kit.Check, n int, only int) {
 		c.Count("import_"+outcome, 1)
 		c.Count("import_class_"+st.Class+"_"+outcome, 1)
 		c.Nontrivial(kit.Sig("import", st.Class, st.Variant, outcome))
+		var facts nameFacts
+		if st.Name != "" {
+			// labels of the hostile name (counters only)
+			facts = factsOf(st.Name, dirs.SnapshotsDir)
+			cnt := func(b bool, name string) {
+				if b {
+					c.Count(name, 1)
+					c.Count(name+"_"+outcome, 1)
+				}
+			}
+			cnt(facts.DotDots > 0, "import_names_with_parent_elements")
+			cnt(facts.Nested, "import_names_setid_in_nested_component")
+			cnt(facts.Nested && facts.DotDots > 0, "import_names_nested_setid_and_parent_elements")
+			cnt(facts.PrefixDotDot, "import_names_parent_elements_before_setid")
+			cnt(facts.Filler && facts.DotDots > 0, "import_names_parent_elements_with_dot_or_empty_elements")
+			cnt(facts.RemEscapes, "import_names_remainder_points_outside")
+			cnt(facts.RemEscapes && facts.CleanLocal, "import_names_clean_local_but_remainder_points_outside")
+			if facts.RemEscapes && under(facts.Predicted, sc.top) {
+				if _, err := os.Lstat(facts.Predicted); err == nil {
+					cnt(true, "import_names_aimed_at_existing_path_outside")
+				} else if _, err := os.Lstat(filepath.Dir(facts.Predicted)); err == nil {
+					cnt(true, "import_names_aimed_at_new_file_outside")
+				}
+			}
+			c.Max("max_parent_elements_in_name", facts.DotDots)
+		}
 
 		var outside, inside []change
 		for _, ch := range diffListing(before, after) {
@@ -745,7 +1112,7 @@ func (sc *scenario) runImports(c *kit.Check, n int, only int) {
 		wit := map[string]interface{}{
 			"case_index": caseIdx, "op": "import", "class": st.Class, "variant": st.Variant, "member_name": st.Name,
 			"set_id": id, "stream_len": len(st.Bytes), "no_dup_check": st.NoDup, "cancel_at": st.CancelAt,
-			"import_error": fmt.Sprint(ierr), "imported_names": names, "snapshots_dir": sc.snapRel,
+			"import_error": fmt.Sprint(ierr), "imported_names": names, "snapshots_dir": sc.snapRel, "name_facts": facts,
 			"before_digest": before.digest(), "after_digest": after.digest(),
 		}
 		if len(outside) > 0 {
@@ -783,7 +1150,7 @@ func (sc *scenario) runImports(c *kit.Check, n int, only int) {
 			c.Count("import_changed_files_of_other_sets", otherSet)
 			c.Note("import_other_set_example", map[string]interface{}{"class": st.Class, "member_name": st.Name, "changes": capChanges(inside, 5)})
 		}
-		if (st.Class == "dotdot-victim" || st.Class == "valid") && !sampled["import-"+st.Class] {
+		if (st.Class == "dotdot-victim" || st.Class == "valid" || st.Class == "nested-id-balanced" || st.Class == "dot-slash-filler" || st.Class == "composed") && !sampled["import-"+st.Class] {
 			sampled["import-"+st.Class] = true
 			c.Sample(map[string]interface{}{"case_index": caseIdx, "op": "import", "class": st.Class, "variant": st.Variant, "member_name": st.Name, "outcome": outcome, "error": fmt.Sprint(ierr), "changed_inside": len(inside), "changed_outside": len(outside)})
 		}
